@@ -69,8 +69,9 @@ func (in *interpreter) spawn(fr *frame, fn value, args []value, pos token.Pos) *
 	g := &goroutine{id: len(s.gs), resume: make(chan bool), fn: fn, args: args, pos: pos}
 	if in.hb != nil {
 		if fr != nil && fr.g != nil {
-			fr.g.vc.tick(fr.g.id)
+			// publish, then advance: what the parent does after the go statement is not ordered before the child
 			g.vc = fr.g.vc.clone()
+			fr.g.vc.tick(fr.g.id)
 		}
 		g.vc.tick(g.id)
 	}
@@ -284,8 +285,8 @@ func (fr *frame) chanSend(c *chanv, v value) {
 	v = copyVal(v)
 	var vc vclock
 	if in.hb != nil {
-		fr.g.vc.tick(fr.g.id)
 		vc = fr.g.vc.clone()
+		fr.g.vc.tick(fr.g.id)
 	}
 	if len(c.buf) < c.cap || (c.cap == 0 && c.recvWait-len(c.buf) > 0) {
 		c.pushBuf(in, v, vc)
@@ -329,8 +330,8 @@ func (c *chanv) tryRecv(in *interpreter, g *goroutine) (v value, ok, got bool) {
 		in.logUndo(func() { c.buf, c.bufvc = oldb, oldv })
 		if in.hb != nil && g != nil {
 			g.vc.join(vc)
-			g.vc.tick(g.id)
 			c.recvvc = g.vc.clone()
+			g.vc.tick(g.id)
 		}
 		if len(c.sendq) > 0 {
 			req := c.sendq[0]
@@ -348,8 +349,8 @@ func (c *chanv) tryRecv(in *interpreter, g *goroutine) (v value, ok, got bool) {
 		in.logUndo(func() { req.done = false })
 		if in.hb != nil && g != nil {
 			g.vc.join(req.vc)
-			g.vc.tick(g.id)
 			c.recvvc = g.vc.clone()
+			g.vc.tick(g.id)
 		}
 		return req.v, true, true
 	}
@@ -405,8 +406,8 @@ func (fr *frame) chanClose(c *chanv) {
 	c.closed = true
 	in.logUndo(func() { c.closed = false })
 	if in.hb != nil {
-		fr.g.vc.tick(fr.g.id)
 		c.closevc = fr.g.vc.clone()
+		fr.g.vc.tick(fr.g.id)
 	}
 }
 
@@ -462,8 +463,8 @@ func (fr *frame) doSelect(instr *ssa.Select) value {
 		}
 		var vc vclock
 		if in.hb != nil {
-			fr.g.vc.tick(fr.g.id)
 			vc = fr.g.vc.clone()
+			fr.g.vc.tick(fr.g.id)
 		}
 		sc.c.pushBuf(in, copyVal(sc.v), vc)
 		return fr.selectResult(instr, chosen, nil, false)
@@ -496,6 +497,7 @@ type syncObj struct {
 	wwait    int
 	count    int64
 	vc       vclock
+	rvc      vclock // RWMutex: what readers published on RUnlock (acquired by writers only)
 	poolObjs []value
 }
 
@@ -529,8 +531,10 @@ func (in *interpreter) acquire(fr *frame, so *syncObj) {
 
 func (in *interpreter) release(fr *frame, so *syncObj) {
 	if in.hb != nil && fr.g != nil {
-		fr.g.vc.tick(fr.g.id)
+		// publish, then advance the releasing goroutine's own component: its later accesses
+		// are not covered by this release
 		so.vc = so.vc.joined(fr.g.vc)
+		fr.g.vc.tick(fr.g.id)
 	}
 }
 
@@ -546,6 +550,9 @@ func extMutexLock(fr *frame, args []value) value {
 	so.locked = true
 	in.logUndo(func() { so.locked = false })
 	in.acquire(fr, so)
+	if in.hb != nil && fr.g != nil && so.rvc != nil {
+		fr.g.vc.join(so.rvc) // a writer is ordered after the read sections that ended before it
+	}
 	return nil
 }
 
@@ -559,6 +566,9 @@ func extMutexTryLock(fr *frame, args []value) value {
 	so.locked = true
 	in.logUndo(func() { so.locked = false })
 	in.acquire(fr, so)
+	if in.hb != nil && fr.g != nil && so.rvc != nil {
+		fr.g.vc.join(so.rvc)
+	}
 	return true
 }
 
@@ -594,7 +604,11 @@ func extRWMutexRUnlock(fr *frame, args []value) value {
 	if so.readers <= 0 {
 		panic(targetPanic{iface{in.runtimeErrorString, "fatal error: sync: RUnlock of unlocked RWMutex"}})
 	}
-	in.release(fr, so)
+	if in.hb != nil && fr.g != nil {
+		// read sections are not ordered with each other: a reader publishes to writers only
+		so.rvc = so.rvc.joined(fr.g.vc)
+		fr.g.vc.tick(fr.g.id)
+	}
 	so.readers--
 	in.logUndo(func() { so.readers++ })
 	in.schedPoint(fr)
@@ -706,8 +720,8 @@ func (in *interpreter) atomicSync(fr *frame, c *value, acquire, release bool) {
 		fr.g.vc.join(so.vc)
 	}
 	if release {
-		fr.g.vc.tick(fr.g.id)
 		so.vc = so.vc.joined(fr.g.vc)
+		fr.g.vc.tick(fr.g.id)
 	}
 }
 
